@@ -1,6 +1,6 @@
 From Coq Require Import ZArith List Bool Reals Lra.
 From Flocq Require Import Core BinarySingleNaN.
-Require Import GV.FloatBase GV.FloatLemmas GV.AngleM GV.AngleProofs GV.GeonumM GV.GeonumProofs GV.TraitsM GV.NewProofs GV.CtorProofs GV.ClosureProofs.
+Require Import GV.FloatBase GV.FloatLemmas GV.AngleM GV.AngleProofs GV.GeonumM GV.GeonumProofs GV.TraitsM GV.NewProofs GV.CtorProofs GV.ClosureProofs GV.PiBounds GV.TrigProofs GV.DotValue.
 Open Scope R_scope.
 Require Import GV.Properties.C10.
 Check C10_wedge : forall (L : libm) a b,
@@ -23,3 +23,14 @@ Check C10_parallel : forall (L : libm) a b, sin_zero_zero L -> fin (rem (ang a))
 Print Assumptions C10_parallel.
 Check C10_special_hyps_inhabited : cos_zero_one trivial_libm /\ sin_zero_zero trivial_libm.
 Print Assumptions C10_special_hyps_inhabited.
+Check C10_wedge_value : forall (L : libm) (u : R) a b, sin_acc L u -> u <= / 1000 ->
+  canonp (rem (ang a)) -> canonp (rem (ang b)) -> (0 <= blade (ang a))%Z -> (0 <= blade (ang b))%Z ->
+  fin (mag (wedge L a b)) ->
+  Rabs (R_ (mag (wedge L a b)) - R_ (mag a) * R_ (mag b) * Rabs (sin (dir (ang b) - dir (ang a))))
+    <= Rabs (R_ (mag a) * R_ (mag b)) * (u + 10002 / 100000000000000) + bpow radix2 (-1073).
+Print Assumptions C10_wedge_value.
+Check C10_sin_value : forall (L : libm) (u : R) a b, sin_acc L u ->
+  canonp (rem a) -> canonp (rem b) -> (0 <= blade a)%Z -> (0 <= blade b)%Z ->
+  let s := sinF L (grade_angle (geometric_sub b a)) in
+  fin s /\ Rabs (R_ s - sin (dir b - dir a)) <= u + 10001 / 100000000000000.
+Print Assumptions C10_sin_value.
